@@ -154,6 +154,24 @@ func (c *Ctx) snapshot() *ctxSnap {
 		}
 		c.fact("impl!"+p.ik+"!"+p.tk, f, p.tk)
 	}
+	// reflect kinds of the run-time type constants (when the reflect model is in use)
+	c.mu.Lock()
+	_, hasKind := c.declared["sf!rt_kind"]
+	_, hasOf := c.declared["sf!rt_of"]
+	var tks []string
+	tts := map[string]types.Type{}
+	for tk, tt := range c.typeIDs {
+		tks = append(tks, tk)
+		tts[tk] = tt
+	}
+	c.mu.Unlock()
+	if hasKind && hasOf {
+		for _, tk := range tks {
+			if k := reflectKindOf(tts[tk]); k >= 0 {
+				c.fact("kind!"+tk, sx("=", sx("sf!rt_kind", sx("sf!rt_of", tk)), bvLitI(int64(k), 64)), tk)
+			}
+		}
+	}
 	c.mu.Lock()
 	defer c.mu.Unlock()
 	sn := &ctxSnap{decls: append([]string(nil), c.decls...), declName: append([]string(nil), c.declName...), facts: append([]ctxFact(nil), c.facts...)}
@@ -351,7 +369,7 @@ func (c *Ctx) structSort(n *types.Named, st *types.Struct) string {
 	c.mu.Unlock()
 	name := "S!" + key
 	opaque := n == nil || n.Obj().Pkg() == nil || !c.inRepo(n.Obj().Pkg())
-	if n != nil && n.Obj().Pkg() != nil && n.Obj().Pkg().Path() == "reflect" && (n.Obj().Name() == "SliceHeader" || n.Obj().Name() == "Method") {
+	if n != nil && n.Obj().Pkg() != nil && modelledExternStructs[n.Obj().Pkg().Path()+"."+n.Obj().Name()] {
 		opaque = false
 	}
 	if opaque || st.NumFields() == 0 {
@@ -372,6 +390,12 @@ func (c *Ctx) structSort(n *types.Named, st *types.Struct) string {
 	c.mu.Unlock()
 	c.declare(name, fmt.Sprintf("(declare-datatypes ((%s 0)) (((mk!%s %s))))", name, key, strings.Join(fs, " ")))
 	return name
+}
+
+// structs from outside /repo that are modelled field by field (everything else is an opaque sort)
+var modelledExternStructs = map[string]bool{
+	"reflect.SliceHeader": true, "reflect.Method": true,
+	"debug/gosym.Table": true, "debug/gosym.Sym": true, "debug/gosym.Func": true,
 }
 
 func fieldAcc(structKey, field string, idx int) string {
@@ -412,7 +436,7 @@ func (c *Ctx) isDatatypeStruct(t types.Type) bool {
 	if n == nil || n.Obj().Pkg() == nil {
 		return false
 	}
-	if n.Obj().Pkg().Path() == "reflect" && (n.Obj().Name() == "SliceHeader" || n.Obj().Name() == "Method") {
+	if modelledExternStructs[n.Obj().Pkg().Path()+"."+n.Obj().Name()] {
 		return true
 	}
 	return c.inRepo(n.Obj().Pkg())
@@ -552,4 +576,66 @@ func zeroTerm(c *Ctx, t types.Type) Val {
 		}
 	}
 	return v
+}
+
+// reflectKindOf gives reflect.Kind's numeric value for a Go type (-1 if unknown).
+func reflectKindOf(t types.Type) int {
+	switch u := t.Underlying().(type) {
+	case *types.Basic:
+		switch u.Kind() {
+		case types.Bool:
+			return 1
+		case types.Int:
+			return 2
+		case types.Int8:
+			return 3
+		case types.Int16:
+			return 4
+		case types.Int32:
+			return 5
+		case types.Int64:
+			return 6
+		case types.Uint:
+			return 7
+		case types.Uint8:
+			return 8
+		case types.Uint16:
+			return 9
+		case types.Uint32:
+			return 10
+		case types.Uint64:
+			return 11
+		case types.Uintptr:
+			return 12
+		case types.Float32:
+			return 13
+		case types.Float64:
+			return 14
+		case types.Complex64:
+			return 15
+		case types.Complex128:
+			return 16
+		case types.String:
+			return 24
+		case types.UnsafePointer:
+			return 26
+		}
+	case *types.Array:
+		return 17
+	case *types.Chan:
+		return 18
+	case *types.Signature:
+		return 19
+	case *types.Interface:
+		return 20
+	case *types.Map:
+		return 21
+	case *types.Pointer:
+		return 22
+	case *types.Slice:
+		return 23
+	case *types.Struct:
+		return 25
+	}
+	return -1
 }
